@@ -139,13 +139,35 @@ class RecordsAnalysis:
                 cn.stream(e[1])
         res = p.value
         fields = {}
+        multi = {}  # wire term of one exact read -> the several-field format its bytes are unpacked with
         if isinstance(res, InstV):
             for name, v in res.attrs.items():
                 t = term_of(v)
                 if isinstance(t, tuple) and t[0] == "unpack":
-                    fields[name] = (t[1], t[2])
+                    codes = [c for c in t[1] if c.isalpha() or c == "?"]
+                    if len(codes) > 1 and isinstance(t[3], int) and t[3] < len(codes):
+                        # one read decoded by a several-field format: the field is code t[3] of it, at its offset in that read
+                        order = t[1][0] if t[1][:1] in "<>!=@" else ""
+                        multi.setdefault(t[2], t[1])
+                        fields[name] = (order + codes[t[3]], ("part", t[2], t[3]))
+                    else:
+                        fields[name] = (t[1], t[2])
+        if multi:
+            import struct as _st
+            split = []
+            for lab, size, w, at in layout:
+                fmt = multi.get(w)
+                if fmt is None or not isinstance(size, int) or fmt[:1] not in "<>!" or _st.calcsize(fmt) != size:
+                    split.append((lab, size, w, at))
+                    continue
+                order, off = fmt[0], 0
+                for i, c in enumerate(ch for ch in fmt if ch.isalpha() or ch == "?"):
+                    n = _st.calcsize(order + c)
+                    split.append((lab, n, ("part", w, i), at + off))
+                    off += n
+            layout = split
         return {"fn": f, "path": p, "paths": paths, "layout": layout, "fields": fields, "seeks": seeks, "repeat": count_repeat,
-                "result": res}
+                "result": res, "multi": multi}
 
     def _batch_summary(self, p):
         from .descr import event_of
